@@ -19,6 +19,10 @@ EXTRA = {
                  "CREATE UNIQUE INDEX ixm{i} ON fm{i} (c DESC, a);"],
     "alter_more": ["CREATE TABLE s.am{i} (a int, b int, c varchar(5));", "ALTER TABLE s.am{i} MODIFY COLUMN b bigint;", "ALTER TABLE s.am{i} DROP COLUMN c;",
                    "ALTER TABLE s.am{i} ADD CONSTRAINT df{i} DEFAULT 7 FOR a;", "ALTER TABLE s.am{i} ADD CONSTRAINT pk{i} PRIMARY KEY (a);"],
+    # three-part (project-qualified) names mixed with two-part references to the same table
+    "bq_project_alter": ["CREATE TABLE proj.ds.bq{i} (a int, b int);", "ALTER TABLE ds.bq{i} ADD c int;", "CREATE INDEX ix_bq{i} ON ds.bq{i} (a);"],
+    "bq_project_alter2": ["CREATE TABLE ds.bp{i} (a int, b int);", "ALTER TABLE proj.ds.bp{i} ADD CONSTRAINT fkbp{i} FOREIGN KEY (a, b) REFERENCES p2.ds2.o (x, y);",
+                          "CREATE UNIQUE INDEX ux_bp{i} ON ds.bp{i} (b DESC);"],
     "partition": ["CREATE TABLE pt{i} (a int, b date) PARTITION BY RANGE (b);"],
     "partitioned": ["CREATE TABLE pd{i} (a int, b string) PARTITIONED BY (dt string, hr int);"],
 }
